@@ -3,7 +3,7 @@
    parser, the SAX events that octet completes (recorded by the harness from the real expat fed octet by octet), or
    "rejects".  The session side is an oracle too: per reply-to-be of the stream, the requests outstanding while it is
    parsed and what dispatching it does.  Definitions only. *)
-From NC Require Import Model.Base Model.Utf8 Model.Framing10 Model.SaxFilter Model.JunosParse.
+From NC Require Import Model.Base Model.Utf8 Model.Framing10 Model.Framing11 Model.SaxFilter Model.JunosParse Model.JunosParse11.
 
 Record piece : Type := mkpiece {
   penv : env;                               (* listener table while this reply is parsed *)
@@ -45,3 +45,9 @@ Definition sx_dispatch (w : world) (via_sax : bool) (msg : bytes) : dres world :
 Definition sx_parse := parse world xstate sx_new sx_step sx_rooted sx_dispatch.
 Definition sx_run := run world xstate sx_new sx_step sx_rooted sx_dispatch.
 Definition sx_init := init world xstate sx_new.
+
+(* the same instance on a base:1.1 session (Model/JunosParse11.v): one piece per chunked message, its script is that
+   of the complete message *)
+Definition sx_parse11 := parse11 world xstate sx_new sx_step sx_rooted sx_dispatch.
+Definition sx_run11 := run11 world xstate sx_new sx_step sx_rooted sx_dispatch.
+Definition sx_init11 (w : world) := init11s world w.
